@@ -44,7 +44,7 @@ PROPS = {
     "C01": dict(streams=["tbl", "fix", "sdt"], exhaustive="",
                 nontrivial="history with at least one operation"),
     "C02": dict(streams=["tbl", "fix", "sdt"], exhaustive="", nontrivial="history with at least one operation"),
-    "C03": dict(streams=["tbl"], exhaustive="", nontrivial="history with at least one add"),
+    "C03": dict(streams=["tbl", "fix"], exhaustive="", nontrivial="history with at least one add"),
     "C04": dict(streams=["ent", "tbl", "fix", "misc"], exhaustive="",
                 nontrivial="any entry / any history with an operation"),
     "C11": dict(streams=["ent", "fix", "tbl"], exhaustive="all subsets and all orders/repetitions up to length 4 (3 for the 8-option cache node) of each option family; all 2^7 subsets and all ordered triples of the TCPA server builders; ordered pairs/triples of the FADT exclusive setters",
